@@ -885,6 +885,11 @@ class Lib:
         j = self.eng.eval(st, node.args[1]).t
         return VU(KSEQ(d.dom, j))
 
+    def sp_allocated(self, st, node):
+        """the reference denotes an object allocated so far"""
+        v = self.eng.eval(st, node.args[0])
+        return VBool(z3.And(v.t >= 1, v.t < st.next_ref))
+
     def sp_isdisk(self, st, node):
         from .engine import ISDISK
         v = self.eng.eval(st, node.args[0])
